@@ -493,6 +493,42 @@ theorem C11_surfedges (isZero : Nat → Bool) (fresh dummy : Nat) (ed : Nat → 
       = .ok (ss.map (orient ed)) :=
   (surfedges_roundtrip isZero fresh dummy ed verts final ss hne hfin).1
 
+/-- **Water leaf info.** -/
+theorem C11_water (texinfo final : List Nat) (ws : List WaterV)
+    (hfin : (writeWater (Finder.mk' idKey texinfo) ws).2.list <+: final) :
+    readWater final (writeWater (Finder.mk' idKey texinfo) ws).1 = .ok ws :=
+  water_roundtrip texinfo final ws hfin
+
+/-- **VitaminSource faces** (the reader always indexes texinfo: faces must have one). -/
+theorem C11_vfaces (tex planes edges ftex fplanes fedges : List Nat) (fs : List VFaceV) (hok : ∀ f ∈ fs, f.texinfo.isSome)
+    (h1 : (writeVFaces true ⟨Finder.mk' idKey tex, Finder.mk' idKey planes, EFinder.mk' idKey edges⟩ fs).2.fTex.list <+: ftex)
+    (h2 : (writeVFaces true ⟨Finder.mk' idKey tex, Finder.mk' idKey planes, EFinder.mk' idKey edges⟩ fs).2.fPlane.list <+: fplanes)
+    (h3 : (writeVFaces true ⟨Finder.mk' idKey tex, Finder.mk' idKey planes, EFinder.mk' idKey edges⟩ fs).2.eEdges.list <+: fedges) :
+    readVFaces ftex fplanes fedges (writeVFaces true ⟨Finder.mk' idKey tex, Finder.mk' idKey planes, EFinder.mk' idKey edges⟩ fs).1 = .ok fs :=
+  vfaces_roundtrip tex planes edges ftex fplanes fedges fs hok h1 h2 h3
+
+/-- shape of the reader's overlay format: three value fields, then the face slots -/
+theorem C11_gen_overlay_reader_shape :
+    (wireOf overlayReader).map (fun r => (r.take 3).all FieldFmt.isValue && decide (3 + overlayFaceCount ≤ r.length)) = some true := by
+  decide +kernel
+
+/-- **Overlay record, byte layer.** For every face count: the bytes the writer packs (face numbers,
+then pad bytes) are the bytes of the reader's record with zero face slots packed with the reader's
+format — so `unpack` with the reader's format returns exactly `overlayRec`, the record `C11_overlays`
+speaks about. -/
+theorem C11_overlay_bytes (kf : Nat × List Char) (hkf : kf ∈ overlayWriterFaces) (r w : Fmt)
+    (hr : wireOf overlayReader = some r) (hw : wireCat (overlayWriterHead :: kf.2 :: overlayWriterTail) = some w)
+    (o : OverlayV) (ho : o.faces.length = kf.1) (idx : Nat) :
+    pack w ([.int o.id, .int idx, .int ((o.renderOrder <<< 14) ||| o.faces.length)] ++ o.faces.map Val.int ++ o.floats.map Val.f32)
+      = pack r (overlayRec overlayFaceCount o idx) := by
+  have hall := List.all_eq_true.mp C11_gen_overlay_record.2 kf hkf
+  simp only [overlayOK, hr, hw, Bool.and_eq_true, beq_iff_eq, decide_eq_true_eq] at hall
+  obtain ⟨⟨hmid, hk⟩, hnorm⟩ := hall
+  have hshape := C11_gen_overlay_reader_shape
+  simp only [hr, Option.map_some, Option.some.injEq, Bool.and_eq_true, List.all_eq_true, decide_eq_true_eq] at hshape
+  apply overlay_bytes overlayFaceCount r w o idx (by omega) hmid hshape.2 hshape.1
+  rw [ho]; exact hnorm
+
 /-- the records of brushes, sides, leafs and nodes have the shapes `C11_gen_xref_shapes` speaks about
 (so `C11_lump_bytes` applies to them) -/
 theorem C11_xref_record_shapes (vit : Bool) (sd : Nat → SideV) (t : BrushTabs) (bs : List BrushV)
